@@ -300,6 +300,7 @@ class World:
         self.susp = susp if mode == "a" else 0
         self.fn_susp = (self.susp if fn_susp is None else fn_susp) if mode == "a" else 0
         self.close_susp = 0  # suspensions inside a source's aclose() (asyncstdlib side only)
+        self.aclose_ret = None  # what a class-based source's aclose() returns (legal: anything)
         self.srcs = []
         self.ntok = 0
         self.pending = []
@@ -331,7 +332,7 @@ class World:
     def source(self, items, flavour, sid=None):
         st = SrcState(self, len(self.srcs) if sid is None else sid, list(items), flavour)
         self.srcs.append(st)
-        if self.mode == "s":
+        if self.mode == "s" and flavour != "list":
             st.obj = SyncIter(st)
             return st.obj
         if flavour == "list":
@@ -349,6 +350,8 @@ class World:
             st.obj = AsyncBareSource(st)
         elif flavour == "afull":
             st.obj = AsyncFullSource(st)
+        elif flavour == "adual":
+            st.obj = AsyncDualSource(st)
         else:
             raise HarnessError("flavour %r" % (flavour,))
         return st.obj
@@ -395,6 +398,22 @@ class World:
                     return f1(*args)
 
             return CallObj()
+        if flavour == "defaw":
+            # a plain function that does its work when called and hands back an awaitable of
+            # the result (a second call is a second use)
+            class Ready:
+                def __init__(self, value):
+                    self.value = value
+
+                def __await__(self):
+                    for _ in range(w.fn_susp):
+                        yield from Suspend(w).__await__()
+                    return self.value
+
+            def f2(*args):
+                return Ready(body(args))
+
+            return f2
         raise HarnessError("callable flavour %r" % (flavour,))
 
     def released(self, only_async=True):
@@ -405,9 +424,9 @@ class World:
         return True
 
 
-ITER_FLAVOURS = ("list", "seq", "iter", "agen", "acls")
+ITER_FLAVOURS = ("list", "seq", "iter", "agen", "acls", "bare", "adual")
 ASYNC_FLAVOURS = ("agen", "acls")
-FN_FLAVOURS = ("def", "adef", "partial", "obj")
+FN_FLAVOURS = ("def", "adef", "partial", "obj", "defaw")
 
 
 class SrcState:
@@ -424,16 +443,17 @@ class SrcState:
         self.untracked = False
         self.started = False
         self.closing = False
+        self.close_interrupted = False
         self.obj = None
         self.pull_after_close = False
 
     def is_released(self):
-        if self.world.mode == "s" or self.untracked:
+        if self.world.mode == "s" or self.untracked or self.close_interrupted:
             return True
         f = self.flavour
         if f == "agen":
             return self.ended or self.closed > 0 or self.obj.ag_frame is None
-        if f == "acls" or f == "afull":
+        if f == "acls" or f == "afull" or f == "adual":
             return self.ended or self.closed > 0
         return True  # nothing to release for sync / bare sources
 
@@ -509,8 +529,12 @@ async def _agen_source(st):
                 # a close that has to suspend (e.g. network shutdown): cannot complete when the
                 # generator is merely garbage collected
                 st.closing = True
-                for _ in range(w.close_susp):
-                    await Suspend(w)
+                try:
+                    for _ in range(w.close_susp):
+                        await Suspend(w)
+                except BaseException:
+                    st.close_interrupted = True
+                    raise
             st.closed += 1
             w.log.append(("close", st.sid))
 
@@ -552,11 +576,26 @@ class AsyncClsSource(AsyncBareSource):
 
     async def aclose(self):
         st = self.st
-        for _ in range(st.world.close_susp):
-            await Suspend(st.world)
+        try:
+            for _ in range(st.world.close_susp):
+                await Suspend(st.world)
+        except BaseException:
+            # interrupted inside the source's own close: the source was told to close, what
+            # becomes of it is its own business (not the library's)
+            st.close_interrupted = True
+            raise
         if not st.closed and not st.ended:
             st.world.log.append(("close", st.sid))
         st.closed += 1
+        return st.world.aclose_ret
+
+
+class AsyncDualSource(AsyncClsSource):
+    """Async iterator (with aclose) that is *also* a sync iterable: the async protocol must win."""
+
+    def __iter__(self):
+        self.st.world.bad("source:sync-protocol-used-on-an-async-iterator")
+        return iter(())
 
 
 class AsyncFullSource(AsyncClsSource):
